@@ -262,18 +262,85 @@ def rule_limits_are_the_callers(eng, rep, rule="C15-3b.the-loop-tests-the-caller
             rep.bad(rule, eng.where(dy), "util.dykstra|limit-not-tested|%s" % p, "no loop test mentions the parameter `%s` (tests: %s)" % (p, tests))
 
 
+def rule_complete_sweeps(eng, rep, rule="C15-2c.projectors-are-applied-in-complete-sweeps"):
+    """'The result is the last projector's output' (the callers put the bound box / the trust-region ball last) needs the routine to stop only after the last set of a sweep.
+    Every projector call `P[i](..)` sits in a `for` over all of range(len(P)), nested in the sweep loop, whose test is therefore evaluated between complete sweeps only.
+    A flat loop (`i = n % p`) whose stopping test does not look at the position in the sweep can end after any set."""
+    from .common import lowered_enumerate
+    fi, cfg = lowered_enumerate(eng, eng.fn("util.dykstra"))
+    P = fi.posparams[0]
+    ncalls = 0
+    for n, d in cfg.g.nodes(data=True):
+        node = d["ast"]
+        if node is None or d["kind"] not in ("stmt", "cond"):
+            continue
+        for sub in ast.walk(node):
+            if not (isinstance(sub, ast.Call) and isinstance(sub.func, ast.Subscript) and isinstance(sub.func.value, ast.Name) and sub.func.value.id == P):
+                continue
+            ncalls += 1
+            idx = sub.func.slice
+            site = eng.where(fi, cfg.stmt_of(n) or node)
+            fors = [(h, st) for (h, kind, st) in cfg.loops if kind == "for" and n in cfg.loop_nodes(h)]
+            full = [(h, st) for (h, st) in fors if isinstance(idx, ast.Name) and ekey(st.target) == idx.id and isinstance(st.iter, ast.Call) and ekey(st.iter.func) == "range"]
+            if full:
+                h, st = full[0]
+                if any(isinstance(x, ast.Break) for x in ast.walk(st)):
+                    rep.bad(rule, site, "util.dykstra|sweep-can-be-cut-short", "the loop over the sets contains a `break`: a sweep can end before the last set")
+                else:
+                    rep.ok(rule, site, "`%s` is called for every %s of `for %s in %s`, and the stopping test is evaluated between complete sweeps" % (short(sub.func, 20), idx.id, idx.id, short(st.iter, 30)))
+                continue
+            whiles = [(h, st) for (h, kind, st) in cfg.loops if kind == "while" and n in cfg.loop_nodes(h)]
+            if not whiles:
+                rep.unknown(rule, site, "projector call `%s` outside any loop" % short(sub, 40))
+                continue
+            h, wst = whiles[-1]
+            # which conjuncts of the loop test can end the loop, and do they look at the position in the sweep?
+            idx_names = set(x.id for x in ast.walk(idx) if isinstance(x, ast.Name))
+            blind = []
+            for cn in cfg.nodes_of_kind("cond"):
+                if cfg.stmt_of(cn) is wst:
+                    leaves = [m for m, e in cfg.succ(cn) if e["label"] is False and m not in cfg.loop_nodes(h)]
+                    if leaves and not (set(x.id for x in ast.walk(cfg.ast_of(cn)) if isinstance(x, ast.Name)) & idx_names):
+                        at = atom_of(cfg.ast_of(cn), True)
+                        # a pure iteration bound `counter < limit` ends the loop at a fixed count; anything else can become false after any set
+                        if not (at.op in ("lt", "le") and isinstance(at.lhs, ast.Name) and _is_counter(cfg, h, at.lhs.id)):
+                            blind.append(cfg.ast_of(cn))
+            if blind:
+                rep.bad(rule, site, "util.dykstra|stop-inside-a-sweep",
+                        "`%s` is applied in a flat loop (index `%s`), and the stopping test `%s` does not look at the position in the sweep: the routine can stop after a set other than the "
+                        "last one, so the result need not lie in the set its callers put last (bound box / trust-region ball)" % (short(sub.func, 20), short(idx, 20), short(blind[0], 40)))
+            else:
+                rep.unknown(rule, site, "projector call `%s` is not inside a `for` over all sets" % short(sub, 40))
+    rep.require_count(rule, "projector calls in dykstra", ncalls, 1)
+
+
+def _is_counter(cfg, head, name):
+    """every write to `name` inside the loop is an increment by a literal"""
+    okc = False
+    for n in cfg.loop_nodes(head):
+        st = cfg.ast_of(n)
+        if cfg.kind(n) != "stmt":
+            continue
+        strong, weak = cfg.defs_of(n)
+        if name in strong or name in weak:
+            if _is_incr_of(st, name) is None:
+                return False
+            okc = True
+    return okc
+
+
 def run(eng, rep):
     rep.explain("C15: on util.dykstra's CFG -- counting data-flow for the sweep counter (T3), reaching definitions of the returned variable (T4), "
                 "shape and placement of the stopping accumulator, and symbolic execution of one inner iteration over affine normal forms (T7) showing that "
                 "each sub-step moves x by exactly the change of its correction vector (the two premises of the sqrt(p*tol) feasibility bound).")
     rep.explain("Also decided: tol and max_iter are never re-assigned, so the loop tests the caller's values (C15-3b); pbox is an exact two-sided clamp of its own parameters (C15-2b).")
     rep.not_decided += ["distance to each set / 1e-3 optimality / 'unchanged up to rounding' (numerical)"]
-    rule_sweep_bound(eng, rep)
-    rule_result_is_last_projector(eng, rep)
-    rule_stopping_quantity(eng, rep)
-    rule_substep_affine(eng, rep)
-    rule_limits_are_the_callers(eng, rep)
-    rule_projector_argument_is_not_reused(eng, rep)
+    for r in (rule_complete_sweeps, rule_sweep_bound, rule_result_is_last_projector, rule_stopping_quantity, rule_substep_affine, rule_limits_are_the_callers,
+              rule_projector_argument_is_not_reused):
+        try:
+            r(eng, rep)
+        except AnalysisError as ex:       # an unrecognised shape stops this rule only: a definite violation found by another rule must still be reported
+            rep.unknown(r.__name__, "dfols/util.py:dykstra", str(ex))
     # the two projectors
     pb = eng.fn("util.pbox")
     r = [n for n in eng.prog.own_nodes(pb) if isinstance(n, ast.Return)]
